@@ -14,19 +14,12 @@ import (
 	"verif/internal/vrun"
 )
 
-// offsets returns the swept values of d−T in ns.
+// offsets returns the swept values of d−T in ns: every µs of [−2 ms, +2 ms] (4 001 points) in both tiers
+// (a bubble costs ~15 µs, so the quick tier does not need a coarser grid).
 func offsets(r *vrun.Run) []int64 {
 	var out []int64
-	if !r.Quick() {
-		for us := int64(-2000); us <= 2000; us++ {
-			out = append(out, us*1000)
-		}
-		return out
-	}
 	for us := int64(-2000); us <= 2000; us++ {
-		if (us >= -50 && us <= 50) || us%5 == 0 {
-			out = append(out, us*1000)
-		}
+		out = append(out, us*1000)
 	}
 	return out
 }
@@ -39,7 +32,7 @@ var (
 
 func runSweep(r *vrun.Run) {
 	offs := offsets(r)
-	reps := r.Pick(1, 3)
+	reps := r.Pick(1, 40)
 	var cases []scen
 	idx := 0
 	add := func(runner, kind, parent string, off int64, rep int) {
@@ -68,7 +61,7 @@ func runSweep(r *vrun.Run) {
 	parents := []string{pLive, pTm, pT, pTp}
 	// d = T exactly: both outcomes are legal and the scheduler decides, so this point is replicated (the replicates
 	// differ in T/δ/ε and in the order in which the runtime happens to run the goroutines woken at the same instant)
-	eqReps := r.Pick(60, 600)
+	eqReps := r.Pick(400, 10_000)
 	for rep := 1; rep <= eqReps; rep++ {
 		for _, k := range kinds {
 			add(rRAWT, k, pLive, 0, 1000+rep)
@@ -268,7 +261,7 @@ func judgeBubble(r *vrun.Run, sc scen, st *state, out *bubbleOut, deadlock strin
 		r.Obs("sweep_equal_instant_cases", 1)
 	}
 	phase, _ := out.phase.Load().(string)
-	base := map[string]any{"scenario": sc, "deterministic": true, "phase": phase, "bubble_panic": deadlock}
+	base := map[string]any{"scenario": sc, "deterministic": rel != "at-signal-instant", "phase": phase, "bubble_panic": deadlock}
 
 	// ---- (R1) the runner returns
 	if out.hung || (deadlock != "" && (phase == "waiting-for-runner" || phase == "hang-confirm" || phase == "released-by-drain")) {
